@@ -158,7 +158,8 @@ def take(v, n: int, start, L: int):
             return (v >> (n - start - L)) & mask(L)
         if L == n:
             return v
-        return z3.Extract(n - 1 - start, n - start - L, v)
+        # structural simplification (Extract of Concat etc.) keeps downstream Int<->BV terms recognisable for z3
+        return z3.simplify(z3.Extract(n - 1 - start, n - start - L, v))
     vv = bv(v, n)
     if L == n:
         return vv
@@ -326,6 +327,9 @@ _PROV = {}
 def to_uint(v, n: int):
     if not is_bv(v):
         return v
+    hit = _PROV_BV.get(v.get_id())
+    if hit is not None and hit[2] is False and z3.eq(hit[0], v):
+        return hit[1]
     t = z3.BV2Int(v, False)
     _PROV[t.get_id()] = (t, v, n)
     return t
@@ -334,21 +338,39 @@ def to_uint(v, n: int):
 def to_sint(v, n: int):
     if not is_bv(v):
         return v - (1 << n) if (v >> (n - 1)) & 1 else v
+    hit = _PROV_BV.get(v.get_id())
+    if hit is not None and hit[2] is True and z3.eq(hit[0], v):
+        return hit[1]
     t = z3.BV2Int(v, True)
     _PROV[t.get_id()] = (t, v, n)
     return t
 
 
-def from_int(i, n: int):
-    """i python int or z3 Int term, already range-checked; two's complement into n bits."""
+# reverse provenance: bit-vectors made by int2ba from a *range-checked* Int term i (0 <= i < 2^n unsigned,
+# -2^(n-1) <= i < 2^(n-1) signed): converting them back with the same signedness yields i itself.
+_PROV_BV = {}
+
+
+def reset_provenance():
+    _PROV.clear()
+    _PROV_BV.clear()
+
+
+def from_int(i, n: int, signed=None):
+    """i python int or z3 Int term, already range-checked by the caller; two's complement into n bits."""
     if is_conc(i):
         return i & mask(n)
     hit = _PROV.get(i.get_id())
     if hit is not None and hit[2] == n and z3.eq(hit[0], i):
         return hit[1]
-    if len(_PROV) > 4096:
-        _PROV.clear()
-    return z3.Int2BV(i, n)
+    if len(_PROV) > 4096 or len(_PROV_BV) > 4096:
+        reset_provenance()
+    r = z3.Int2BV(i, n)
+    if signed is not None:
+        _PROV_BV[r.get_id()] = (r, i, signed)
+        rs = z3.simplify(r)   # slicing simplifies terms structurally; recognise the simplified form too
+        _PROV_BV[rs.get_id()] = (rs, i, signed)
+    return r
 
 
 def byte_terms(v, n: int):
